@@ -14,6 +14,7 @@ LEVEL = "fault_enumeration"
 BUILDS = [("c11_crash", "asan"), ("c11_crash", "plain")]   # quick: asan; thorough: plain (every byte) + asan (chosen cuts).
 # The judge forks one single-purpose child per crash image, so a TSan flavor would add nothing here.
 ORACLE = os.path.join(vf.VERIF, "lib", "c11_oracle.py")
+T0_MS = 2000000000000   # harness constant: the instant every recorded history runs at
 
 KV_MAXLOG = [300, 700, 1500, 4000]
 
@@ -24,13 +25,16 @@ def _params(tier):
         # ASan makes each forked child ~5x dearer (13 ms vs 2.7 ms per image, mostly kernel time for
         # fork/exit of the instrumented address space), so the every-byte enumeration runs in the plain
         # flavor and the sanitizer flavor re-judges the same histories at the structurally chosen cuts.
-        return dict(kv_hist=int(os.environ.get("VF_C11_KV_HIST", "320")), kv_nops=24,
+        return dict(kv_hist=int(os.environ.get("VF_C11_KV_HIST", "280")), kv_nops=24,
                     js_hist=int(os.environ.get("VF_C11_JSON_HIST", "64")), js_nops=18, cont=5, judge_timeout=5400,
-                    passes=[dict(flavor="plain", cuts="full", maxfull=256, maxfull_json=1024, cap=24, levels=2, l2every=6, l2cuts=3),
-                            dict(flavor="asan", cuts="quick", maxfull=0, maxfull_json=0, cap=8, levels=2, l2every=4, l2cuts=2)])
+                    passes=[dict(flavor="plain", cuts="full", maxfull=256, maxfull_json=1024, cap=24, levels=2, l2every=6, l2cuts=3,
+                                 tcap=8, tbyte=60),
+                            dict(flavor="asan", cuts="quick", maxfull=0, maxfull_json=0, cap=8, levels=2, l2every=4, l2cuts=2,
+                                 tcap=12, tbyte=333)])
     return dict(kv_hist=int(os.environ.get("VF_C11_KV_HIST", "40")), kv_nops=22,
                 js_hist=int(os.environ.get("VF_C11_JSON_HIST", "12")), js_nops=16, cont=4, judge_timeout=1500,
-                passes=[dict(flavor="asan", cuts="quick", maxfull=0, maxfull_json=0, cap=8, levels=1, l2every=1, l2cuts=0)])
+                passes=[dict(flavor="asan", cuts="quick", maxfull=0, maxfull_json=0, cap=8, levels=1, l2every=1, l2cuts=0,
+                             tcap=int(os.environ.get("VF_C11_TCAP", "10")), tbyte=333)])
 
 
 def _hist_cfg(store, hist):
@@ -57,7 +61,7 @@ def _run_oracle(logp, obsp, outp, final=False):
     return recs, None
 
 
-def _judge_args(store, seed, hist, cfg, P, ps, d, only=None):
+def _judge_args(store, seed, hist, cfg, P, ps, d, only=None, only_r=None):
     # per-child watchdog; VF_C11_CHILD_TIMEOUT_MS exists to exercise the hung-child path (first pass only:
     # the isolated re-run of a "hung" image always gets the full 60 s)
     wd = 60000 if only else int(os.environ.get("VF_C11_CHILD_TIMEOUT_MS", "30000"))
@@ -65,13 +69,14 @@ def _judge_args(store, seed, hist, cfg, P, ps, d, only=None):
          "--maxlog", cfg["maxlog"], "--empty", cfg["empty"], "--dir", d, "--trace", os.path.join(d, "trace"),
          "--cuts", ps["cuts"], "--maxfull", ps["maxfull_json"] if store == "json" else ps["maxfull"], "--cap", ps["cap"],
          "--cont", P["cont"], "--levels", ps["levels"], "--l2every", ps["l2every"], "--l2cuts", ps["l2cuts"],
-         "--timeout-ms", wd]
+         "--tcap", ps["tcap"], "--tbyte", ps["tbyte"], "--timeout-ms", wd]
     if only:
         a += ["--only", only, "--levels", 2 if only.count(":") == 3 else 1]
+        a += ["--only-r", only_r if only_r is not None else T0_MS]
     return a
 
 
-def _history(ctx, binary, store, hist, P, ps, only=None, keep=False):
+def _history(ctx, binary, store, hist, P, ps, only=None, keep=False, only_r=None):
     """-> dict(rrs=[RunResult], recs=[oracle records], bad=[str], summary=dict)"""
     res = dict(rrs=[], recs=[], bad=[], summary=None)
     cfg = _hist_cfg(store, hist)
@@ -96,7 +101,7 @@ def _history(ctx, binary, store, hist, P, ps, only=None, keep=False):
             return res
         out2 = os.path.join(d, "judge.jsonl")
         obsp = os.path.join(d, "obs.jsonl")
-        rr2 = vf.run_harness(binary, _judge_args(store, ctx.seed, hist, cfg, P, ps, d, only) + ["--obs", obsp, "--out", out2],
+        rr2 = vf.run_harness(binary, _judge_args(store, ctx.seed, hist, cfg, P, ps, d, only, only_r) + ["--obs", obsp, "--out", out2],
                              timeout=P["judge_timeout"], out_file=out2)
         res["rrs"].append(rr2)
         if rr2.timed_out or rr2.rc != 0:
@@ -118,7 +123,7 @@ def _history(ctx, binary, store, hist, P, ps, only=None, keep=False):
         for rt in retries[:4]:
             o = f"{rt['k']}:{rt['b']}" + (f":{rt['k2']}:{rt['b2']}" if "k2" in rt else "")
             obs2 = os.path.join(d, "obs-retry.jsonl")
-            rr3 = vf.run_harness(binary, _judge_args(store, ctx.seed, hist, cfg, P, ps, d, o) + ["--obs", obs2, "--out", os.path.join(d, "j3.jsonl")],
+            rr3 = vf.run_harness(binary, _judge_args(store, ctx.seed, hist, cfg, P, ps, d, o, rt.get("R")) + ["--obs", obs2, "--out", os.path.join(d, "j3.jsonl")],
                                  timeout=600, out_file=os.path.join(d, "j3.jsonl"))
             rr3.records = []  # counters of the re-run are not evidence
             res["rrs"].append(rr3)
@@ -131,7 +136,7 @@ def _history(ctx, binary, store, hist, P, ps, only=None, keep=False):
                     if r.get("t") == "viol":
                         dd = r.get("detail") or {}
                         got = [dd.get("k"), dd.get("b")] + ([dd.get("k2"), dd.get("b2")] if len(want) == 4 else [])
-                        if got == want and len(want) == (4 if "k2" in dd else 2):
+                        if got == want and len(want) == (4 if "k2" in dd else 2) and dd.get("R") == rt.get("R"):
                             recs.append(r)
         if len(retries) > 4:
             res["bad"].append(f"{store} hist={hist}: {len(retries)} children hit the watchdog")
@@ -151,6 +156,7 @@ def _history(ctx, binary, store, hist, P, ps, only=None, keep=False):
                                   every_operation_boundary=True,
                                   writes_cut_at_every_byte=j["writes_full"],
                                   byte_cut_images=j["byte_images"], images=j["images"], images_level2=j["images2"],
+                                  recoveries_at_deadline_instants=j.get("time_variants", 0),
                                   exhaustive_bytes=(j["writes_full"] == j["writes"]))
         if keep:
             res["dir"] = d
@@ -205,7 +211,7 @@ def run(ctx):
     # so the run as a whole is exhaustive only if no history contained a larger write
     full = [s for s in summaries if s["cuts"] == "full"]
     ctx.exhaustive = bool(full) and all(s["exhaustive_bytes"] for s in full)
-    ctx.rule = ("one evaluation = one crash image (trace prefix up to operation k, byte b) recovered by a fresh store in a child "
+    ctx.rule = ("one evaluation = one (crash image, time of recovery) pair: trace prefix up to operation k, byte b, recovered at instant R by a fresh store in a child "
                 "process, compared with the admissible set, then continued, closed cleanly, reopened and compared again; "
                 "distinct = hash of (store, level, cut-class lineage, in-flight call kind, which admissible state was recovered "
                 "(exact/old/new/mixed), byte-cut class, continuation compacted?, #keys bucket, recovery ok?, continuation ok?)")
@@ -214,14 +220,19 @@ def run(ctx):
         "a write cut at byte b leaves exactly its first b bytes",
         "fsync()/fdatasync() on store files are recorded but not executed (no effect on any image in this model)",
         "a call counts as returned as soon as all file operations it issued are in the image (the strictest reading: that crash instant exists)",
-        "wall clock frozen near a fixed epoch in every process (clock shim); all TTLs >= 100000 s, so no key expires during a case",
+        "wall clock exactly frozen per process (the harness defines std::chrono::system_clock::now()): history at T0, each recovery at its "
+        "own instant R >= T0 (T0, or 1 ms before / at / 1 ms after a deadline of the history, or a day after the last); deadlines are "
+        ">= 20000 s after the instant they are set at, so no key expires *during* a process and no eviction record is written asynchronously",
+        "expired iff deadline <= now (iora's documented rule); a key whose acknowledged deadline is <= R must be absent after recovery at R",
         "no background activity issues file operations during a case (background compaction interval 30 s, JSON background flush 1 h, no TTL fires)",
         "forked children run the TTL wheel at a 10 ms tick (wall time only)",
     ]
     ctx.require_obs("replay_selfcheck_ok", "kv_images_judged", "kv_class:boundary", "kv_class:cut-in-log-append",
                     "kv_class:compact:cut-in-snapshot-write", "kv_class:compact:between-rename-and-truncate",
                     "kv_class:between-log-appends", "kv_recovered_old", "kv_recovered_new", "kv_continuations_checked",
-                    "kv_continuations_with_compaction", "json_images_judged", "json_class:cut-in-flush",
+                    "kv_continuations_with_compaction", "kv_recovered_at_a_deadline_instant",
+                    "kv_recovered_with_some_acknowledged_deadline_passed",
+                    "kv_expiry_change_after_compaction_recovered_after_old_deadline", "json_images_judged", "json_class:cut-in-flush",
                     "json_continuations_checked")
 
 
@@ -238,6 +249,6 @@ def replay(ctx, path):
     ps = [x for x in P["passes"] if x["flavor"] == flavor] or P["passes"]
     binary = vf.build("c11_crash", ps[0]["flavor"])
     only = f"{d['k']}:{d['b']}" + (f":{d['k2']}:{d['b2']}" if "k2" in d else "")
-    res = _history(ctx, binary, d["store"], d["hist"], P, ps[0], only=only)
+    res = _history(ctx, binary, d["store"], d["hist"], P, ps[0], only=only, only_r=d.get("R"))
     _fold(ctx, res)
     ctx.rule = f"replay of {d['store']} history {d['hist']} (seed {ctx.seed}) cut at {only}"
